@@ -369,7 +369,7 @@ def _size_like(P, body, x, depth=0, seen=None, suffix=()):
             return False
         ty = norm(str(owner_ty).lstrip("&").replace("mut ", "").strip())
         ty = ty.split("<")[0]
-        if P.adt(ty) is None:
+        if P.adts.get(ty) is None:
             return False
         key = ("adt", ty, fields)
         if key in seen:
